@@ -12,7 +12,7 @@ def obligations(tier):
                bounds="every dependency-closed set of already-loaded modules x every next module (inductive step => all import orders of any length); unrolled to the derived step bound"),
             Ob("C20.bound_objects", "PY", "vf.im_state", "check", 900,
                funcs=("chartparse/*.py (module bodies executed in fresh interpreters)",),
-               bounds="concrete complement (exhaustive over the property's own quantifier): every module imported first and every ordered pair imported first and second, "
+               bounds="concrete complement (exhaustive over the property's own quantifier): every module imported first and every ordered pair imported first and second (dotted spelling), every module first and 33 pairs in the `from chartparse import m` spelling, every module first under -O and -OO, "
                       "then the rest; a structural fingerprint (depth 3: classes with their attributes, bases and MRO, containers in order, loggers with their class, "
                       "process-wide logging settings) of every module-level name must equal the chart-first order's")]
 
